@@ -1,19 +1,19 @@
 CONSTANTS
   Variant = "fixed"
-  Hosts <- Hosts1
-  Paths <- Paths2
+  Hosts <- Hosts3
+  Paths <- Paths3
   Names <- Names1
-  DomAttrs <- DomNone
-  PathAttrs <- PathNone
-  Kinds <- KSet
-  Codes <- CodesLoop
-  Locs <- LocsLocal3
+  DomAttrs <- DomAll
+  PathAttrs <- PathFooS
+  Kinds <- KAll
+  Codes <- CodesJar
+  Locs <- LocsLocal
   Methods <- MGet
   Schemes <- SHttp
   Reads <- RNo
   Allows <- ANo
-  MaxOpens = 1
-  MaxResp = 8
+  MaxOpens = 4
+  MaxResp = 4
   MaxSC = 1
   Label = FALSE
 INIT Init
